@@ -26,7 +26,7 @@ import (
 
 const (
 	chainID = "verif-chain"
-	poolP   = 4
+	poolP   = 7 // pool size of the spec (MaxN); pool[poolP] = spare signer, pool[poolP+1] = unknown address
 	nomR    = 1
 )
 
@@ -68,6 +68,7 @@ type situation struct {
 	genesis bool
 	state   sm.State
 	lastTot int64
+	n       int // size of LastValidators (= pool keys 0..n-1)
 }
 
 func mkSituation(name string) *situation {
@@ -93,12 +94,27 @@ func mkSituation(name string) *situation {
 		st.LastBlockHeight, st.LastBlockTotalTx, st.LastBlockID = 7, 10, blockID("A")
 		st.Validators, st.NextValidators, st.LastValidators = mkSet([]int64{10, 1, 1, 0}), mkSet([]int64{10, 1, 1, 0}), mkSet([]int64{10, 1, 1, 1})
 	default:
-		mbt.Die("unknown situation %q", name)
+		pw, ok := quorumSits[name]
+		if !ok {
+			mbt.Die("unknown situation %q", name)
+		}
+		// quorum situations: block 4 of a chain whose previous validator set has the given powers
+		st.LastBlockHeight, st.LastBlockTotalTx, st.LastBlockID = 3, 10, blockID("A")
+		st.Validators, st.NextValidators, st.LastValidators = mkSet([]int64{1, 1, 1, 1}), mkSet([]int64{1, 1, 1, 1}), mkSet(pw)
 	}
+	s.n = st.LastValidators.Size()
 	s.lastTot = st.LastBlockTotalTx
 	s.state = st
 	return s
 }
+
+// previous validator sets of the quorum situations (MCBlockValidation.QSits)
+var quorumSits = map[string][]int64{
+	"q4": {1, 1, 1, 1}, "q5": {1, 1, 1, 1, 1}, "q7": {1, 1, 1, 1, 1, 1, 1},
+	"q113": {1, 1, 3}, "q233": {2, 3, 3}, "q1113": {1, 1, 1, 3},
+}
+
+var sitNames = []string{"gen1", "gen5", "second", "later", "q4", "q5", "q7", "q113", "q233", "q1113"}
 
 // ---------------------------------------------------------------- precommits (classes of the spec)
 type eclass struct {
@@ -231,7 +247,7 @@ func (s *situation) commit(m map[string]string) *types.Commit {
 			pcs = append(pcs, entry(0, "ok", 0, h))
 		}
 	} else {
-		n := poolP
+		n := s.n
 		if m["lclen"] == "short" {
 			n--
 		}
@@ -471,7 +487,7 @@ func main() {
 		mbt.Die("%v", err)
 	}
 	sits := map[string]*situation{}
-	for _, n := range []string{"gen1", "gen5", "second", "later"} {
+	for _, n := range sitNames {
 		sits[n] = mkSituation(n)
 		sits[n].selfCheck()
 	}
@@ -483,7 +499,7 @@ func main() {
 		go func(w int) {
 			defer wg.Done()
 			local := map[string]*situation{} // ValidatorSet is not goroutine-safe (cached total): one state per worker
-			for _, n := range []string{"gen1", "gen5", "second", "later"} {
+			for _, n := range sitNames {
 				local[n] = mkSituation(n)
 			}
 			for i := w; i < len(behs); i += nw {
